@@ -1385,6 +1385,12 @@ static bool parse_cs_string(TokenContext &ctx, Chunk &pc)
       else if (ch == '\r')
       {
          pc.SetType(CT_STRING_MULTI);
+
+         if (ctx.peek() != '\n')
+         {
+            // a lone CR is a line break as well
+            pc.SetNlCount(pc.GetNlCount() + 1);
+         }
       }
       else if (parseState.top().braceDepth > 0)
       {
@@ -1571,7 +1577,9 @@ static bool parse_cr_string(TokenContext &ctx, Chunk &pc, size_t q_idx)
          return(true);
       }
 
-      if (ctx.peek() == '\n')
+      if (  ctx.peek() == '\n'
+         || (  ctx.peek() == '\r'
+            && ctx.peek(1) != '\n'))            // a lone CR is a line break as well
       {
          pc.Str().append(ctx.get());
          pc.SetNlCount(pc.GetNlCount() + 1);
